@@ -1022,3 +1022,249 @@ def _n_variants(body, ty):
 
 def guard_strs(body, bb):
     return ["%s:%s" % (p, e) for p, e, _ in guards(body, bb)]
+
+
+# ----------------------------------------------------------------------------- inlining of newly introduced helper functions
+
+def _remap_place(p, lm):
+    if isinstance(p, int):
+        return lm(p)
+    out = [lm(p[0])]
+    for el in p[1:]:
+        m = re.fullmatch(r"\[_(\d+)\]", el)
+        out.append("[_%d]" % lm(int(m.group(1))) if m else el)
+    return out
+
+
+def _remap_op(o, lm, pm):
+    if "cp" in o:
+        return dict(o, cp=_remap_place(o["cp"], lm))
+    if "mv" in o:
+        return dict(o, mv=_remap_place(o["mv"], lm))
+    if "promoted" in o:
+        return dict(o, promoted=pm + o["promoted"])
+    return o
+
+
+def _remap_rv(rv, lm, pm):
+    r = dict(rv)
+    for k in ("op", "a", "b"):
+        if k in r and isinstance(r[k], dict):
+            r[k] = _remap_op(r[k], lm, pm)
+    if "place" in r:
+        r["place"] = _remap_place(r["place"], lm)
+    if "ops" in r:
+        r["ops"] = [_remap_op(o, lm, pm) for o in r["ops"]]
+    return r
+
+
+def inline_call(caller_j, bb, callee_j):
+    """Splice callee's MIR into caller at the call terminating block bb (classic inlining: fresh locals, arguments assigned to
+    the callee's parameter locals, `return` -> goto the call's target, _0 -> the call's destination)."""
+    t = caller_j["blocks"][bb]["term"]
+    base = len(caller_j["locals"])
+    nb = len(caller_j["blocks"])
+    pm = len(caller_j.get("promoted", []))
+    dest = t["dest"]
+    plain_dest = isinstance(dest, int) or (isinstance(dest, list) and len(dest) == 1)
+    dl = dest if isinstance(dest, int) else dest[0]
+
+    def lm(l):
+        if l == 0 and plain_dest:
+            return dl
+        return base + l
+    argc = callee_j["argc"]
+    for i, (ty, nm) in enumerate(callee_j["locals"]):
+        # parameters lose their name: they are single-definition copies of the caller's argument expressions
+        caller_j["locals"].append([ty, None if 1 <= i <= argc else nm])
+    caller_j.setdefault("promoted", []).extend(callee_j.get("promoted", []))
+    sp = t.get("sp")
+    pre = []
+    for i, a in enumerate(t["args"]):
+        if i < argc:
+            pre.append({"k": "assign", "place": base + 1 + i, "rv": {"k": "use", "op": a}, "sp": sp})
+    caller_j["blocks"][bb]["stmts"] = list(caller_j["blocks"][bb]["stmts"]) + pre
+    caller_j["blocks"][bb]["term"] = {"k": "goto", "target": nb}
+    ret_target = t["target"]
+    for bl in callee_j["blocks"]:
+        stmts = []
+        for s in bl["stmts"]:
+            if s["k"] == "assign":
+                stmts.append(dict(s, place=_remap_place(s["place"], lm), rv=_remap_rv(s["rv"], lm, pm)))
+            else:
+                stmts.append(s)
+        ct = bl["term"]
+        k = ct["k"]
+        nt = dict(ct)
+        if k == "return":
+            if ret_target is None:
+                nt = {"k": "unreachable", "sp": ct.get("sp")}
+            elif plain_dest:
+                nt = {"k": "goto", "target": ret_target}
+            else:
+                stmts.append({"k": "assign", "place": dest, "rv": {"k": "use", "op": {"mv": base}}, "sp": sp})
+                nt = {"k": "goto", "target": ret_target}
+        else:
+            for f in ("target", "unwind", "otherwise"):
+                if isinstance(nt.get(f), int):
+                    nt[f] = nb + nt[f]
+            if k == "switch":
+                nt["targets"] = [[v, nb + x] for v, x in ct["targets"]]
+                nt["op"] = _remap_op(ct["op"], lm, pm)
+            elif k == "call":
+                nt["args"] = [_remap_op(a, lm, pm) for a in ct["args"]]
+                nt["dest"] = _remap_place(ct["dest"], lm)
+                if isinstance(nt.get("func"), dict):
+                    nt["func"] = _remap_op(nt["func"], lm, pm)
+            elif k == "drop":
+                nt["place"] = _remap_place(ct["place"], lm)
+            elif k == "assert":
+                for f in ("cond", "a", "b"):
+                    if isinstance(nt.get(f), dict):
+                        nt[f] = _remap_op(nt[f], lm, pm)
+        caller_j["blocks"].append({"cleanup": bl.get("cleanup", False), "stmts": stmts, "term": nt})
+
+
+def inline_new_helpers(fx, known_fn_names, max_blocks=400, passes=3):
+    """Functions whose name did not exist when the rules were written (audit/names.json `_defs`) are helpers some edit
+    extracted: every call to one from the same crate is inlined into its caller, so the rules see the code where they were
+    written to look for it.  Inlining preserves behaviour, so a verdict on the inlined body is a verdict on the program.
+    Returns the list of (caller, callee) pairs inlined."""
+    import copy
+    done = []
+    for cr in fx.crates.values():
+        new = {b.defi: b for b in cr.bodies if b.kind in ("Fn", "AssocFn") and b.d["name"] not in known_fn_names and len(b.blocks) <= max_blocks}
+        if not new:
+            continue
+        for _ in range(passes):
+            changed = False
+            for b in cr.bodies:
+                sites = [i for i, bl in enumerate(b.blocks) if bl["term"]["k"] == "call" and bl["term"].get("callee") in new
+                         and bl["term"]["callee"] != b.defi and bl["term"].get("rk") == "item"]
+                if not sites:
+                    continue
+                if not b.j.get("_inlined"):
+                    b.j = copy.deepcopy(b.j)
+                    b.j["_inlined"] = True
+                for i in sites:
+                    cal = new[b.j["blocks"][i]["term"]["callee"]]
+                    inline_call(b.j, i, copy.deepcopy(cal.j))
+                    for ch in cal.children:
+                        if ch not in b.children:
+                            b.children.append(ch)
+                    done.append((b.q, cal.q))
+                b.blocks = b.j["blocks"]
+                b.locals = b.j["locals"]
+                b._succ = b._pred = b._dom = b._calls = b._defsites = None
+                b.__dict__.pop("_expr_memo", None)
+                changed = True
+            if not changed:
+                break
+    fx._cg = {}
+    return done
+
+
+def fn_sig(body):
+    d = body.d
+    mod = d["path"].rsplit("::", 1)[0] if d["container"] not in ("impl", "trait") else ""
+    return "|".join([d["krate"], d["container"] or "", d.get("self_adt") or d.get("self_ty") or mod, d.get("trait") or ""] +
+                    [re.sub(r"'\w+", "'_", body.locals[i][0]) for i in range(0, body.argc + 1)])
+
+
+def undo_fn_renames(fx, known_sigs):
+    """known_sigs: {function name: [signature,...]} as of when the rules were written (audit/names.json `_sigs`).  A name that
+    vanished while exactly one new name with the same container, parameter and return types appeared is a rename: the
+    definition gets its old name back on the loaded facts (names are labels; the rules' patterns name the old one).
+    Returns [(old, new)]."""
+    out = []
+    for cr in fx.crates.values():
+        fbodies = [b for b in cr.bodies if b.kind in ("Fn", "AssocFn")]
+        cur = {}
+        for b in fbodies:
+            cur.setdefault(b.d["name"], []).append(b)
+        defined = set(d["name"] for d in cr.defs if d.get("kind") in ("Fn", "AssocFn"))
+        vanished = [n for n, sg in known_sigs.items() if n not in defined and any(s.startswith(cr.name + "|") for s in sg)]
+        fresh = [n for n in cur if n not in known_sigs]
+        used = set()
+        for v in sorted(vanished):
+            sgs = [s for s in known_sigs[v] if s.startswith(cr.name + "|")]
+            if len(sgs) != 1:
+                continue
+            cands = [n for n in fresh if n not in used and len(cur[n]) == 1 and fn_sig(cur[n][0]) == sgs[0]]
+            if len(cands) == 1:
+                b = cur[cands[0]][0]
+                used.add(cands[0])
+                b.d["path"] = b.d["path"].rsplit("::", 1)[0] + "::" + v
+                b.d["name"] = v
+                out.append((v, cands[0]))
+        if used:
+            cr.q = [None] * len(cr.defs)
+            for i in range(len(cr.defs)):
+                cr._qname(i)
+            for b in cr.bodies:
+                b.q = cr.q[b.defi]
+                b._calls = None
+                b._defsites = None
+                b.__dict__.pop("_expr_memo", None)
+    if out:
+        fx.by_q = defaultdict(list)
+        for c in fx.crates.values():
+            for b in c.bodies:
+                fx.by_q[b.q].append(b)
+        fx._cg = {}
+        fx._impl_index = None
+    return out
+
+
+def undo_field_renames(fx, known_fields):
+    """known_fields: {struct path: {field: type}} as of when the rules were written (audit/names.json `_fields`).  A struct
+    field that vanished while exactly one new field of the same type appeared in the same struct is a rename: place
+    projections, aggregates and the struct's field list get the old name back.  Returns [(struct, old, new)]."""
+    ren = {}
+    for cr in fx.crates.values():
+        for path, a in cr.adts.items():
+            kf = known_fields.get(path)
+            if not kf or a.get("kind") != "struct" or len(a.get("variants", [])) != 1:
+                continue
+            flds = a["variants"][0]["fields"]
+            cur = {f[0]: f[1] for f in flds}
+            vanished = [f for f in kf if f not in cur]
+            fresh = [f for f in cur if f not in kf]
+            used = set()
+            for v in sorted(vanished):
+                cands = [f for f in fresh if f not in used and cur[f] == kf[v]]
+                if len(cands) == 1:
+                    used.add(cands[0])
+                    ren[(path, cands[0])] = v
+                    for f in flds:
+                        if f[0] == cands[0]:
+                            f[0] = v
+    if not ren:
+        return []
+    proj = {".%s@%s" % (new, path): ".%s@%s" % (old, path) for (path, new), old in ren.items()}
+    byadt = {}
+    for (path, new), old in ren.items():
+        byadt.setdefault(path, {})[new] = old
+
+    def walk(x):
+        if isinstance(x, list):
+            for i, e in enumerate(x):
+                if isinstance(e, str):
+                    if e in proj:
+                        x[i] = proj[e]
+                elif isinstance(e, (list, dict)):
+                    walk(e)
+        elif isinstance(x, dict):
+            if x.get("k") == "agg" and x.get("adt") in byadt and isinstance(x.get("fields"), list):
+                x["fields"] = [byadt[x["adt"]].get(f, f) for f in x["fields"]]
+            for v in x.values():
+                if isinstance(v, (list, dict)):
+                    walk(v)
+    for cr in fx.crates.values():
+        for b in cr.bodies:
+            walk(b.j["blocks"])
+            walk(b.j.get("promoted", []))
+            walk(b.j.get("upvars", []))
+            b._defsites = None
+            b.__dict__.pop("_expr_memo", None)
+    return [(p, old, new) for (p, new), old in ren.items()]
